@@ -710,13 +710,16 @@ class WatchedProcess(process_mod.Process):
 def case_jobs_race(c):
     """Process.run_jobs free-running on quick jobs, repeated: does every call return?"""
     GATED.value = 0
-    hangs, wrong = 0, 0
+    hangs, wrong, stuck = 0, 0, 0
     for _ in range(c["repeat"]):
         WATCH[0] = Watch()
         try:
             items = list(WatchedProcess.run_jobs([TrivialJob(number=i) for i in range(c["jobs"])], c["cores"]))
             if sorted(it.number for it in items) != list(range(c["jobs"])):
                 wrong += 1
+            # run_jobs has joined every worker (timeout 1 s); one that is still alive blocks in job_queue.get()
+            if any(p.is_alive() for p in WATCH[0].procs):
+                stuck += 1
         except RaceHang:
             hangs += 1
         alive = mp.active_children()
@@ -724,7 +727,7 @@ def case_jobs_race(c):
             p.terminate()
         for p in alive:
             p.join(1.0)
-    return {"hangs": hangs, "wrong": wrong, "calls": c["repeat"]}
+    return {"hangs": hangs, "wrong": wrong, "stuck": stuck, "calls": c["repeat"]}
 
 
 KINDS = {"jobs_race": case_jobs_race, "smap": case_smap, "smap_free": case_smap_free, "init": case_init, "emcee": case_emcee,
@@ -735,7 +738,7 @@ def main():
     cases = json.load(open(sys.argv[1]))["cases"]
     out = []
     for c in cases:
-        signal.alarm(120)
+        signal.alarm(120 + 2 * int(c.get("repeat", 0)))
         try:
             t0 = time.time()
             out.append({"ok": KINDS[c["kind"]](c)})
